@@ -116,7 +116,11 @@ def _(value: Enum):
 @customize_repr
 def _(value: Flag):
     name = type(value).__qualname__
-    return " | ".join(f"{name}.{flag.name}" for flag in type(value) if flag in value)
+    flags = [f"{name}.{flag.name}" for flag in type(value) if flag in value]
+    if not flags:
+        # the empty flag has no members to combine: Color(0)
+        return f"{name}({value.value!r})"
+    return " | ".join(flags)
 
 
 @customize_repr
